@@ -268,10 +268,11 @@ Proof. exact backends_overestimate. Qed.
 (* (2h) HISTORIES on one reused `StripedScores<u8, C>` buffer (DiscHistory.v: the callee resizes the caller's buffer --
    surviving rows keep their bytes -- and writes into it: cell by cell in the generic kernel, one 32-byte store per
    row in the AVX2 kernel; wrapper steps in the source order of GenDiscU8.v).  After ANY history of scoring calls
-   (any motifs, sequences, row ranges, pipelines / dispatcher arms of an x86 host), `resize` and `matrix_mut().fill`
-   by the caller, a scoring call leaves in the buffer exactly its FRESH result (run_u8_kernel, which the theorems
-   above are about): the result depends on the last call only.  [buf_wf]: every row of the buffer has C cells
-   (invariant of DenseMatrix<u8, C>; true of StripedScores::empty()). *)
+   (any motifs, sequences, row ranges; [call_ok]: the generic kernel with any number of columns, the AVX2 kernel with
+   32, the NEON kernel -- one 16-byte store per column block and row -- with 16 q columns), `resize` and
+   `matrix_mut().fill` by the caller, a scoring call leaves in the buffer exactly its FRESH result (run_u8_kernel,
+   which the theorems above are about): the result depends on the last call only.  [buf_wf]: every row of the buffer
+   has C cells (invariant of DenseMatrix<u8, C>; true of StripedScores::empty()). *)
 Theorem C08_scores_history :
   forall (C : nat) (ops : list hop) (c : hcall) (lo hi : nat) (buf0 buf : sscores Z),
     buf_wf C buf0 -> Forall (op_ok C) ops -> call_ok C c ->
@@ -453,6 +454,30 @@ Proof. exact arm_hosts_overestimate. Qed.
 Theorem C08_arm_host_kernels :
   (forall a : arm4, gen_dispatch_u8_arm a <> UKAvx2Shuffle) /\ gen_pipeline_u8 D4Neon <> UKAvx2Shuffle.
 Proof. exact arm_ids_not_avx2. Qed.
+
+(* the binary32 twin of C08_history_overestimates (real score, offset, factor, scale as the code computes them), under the
+   conditioning predicate; `_partial`: the side conditions M <= 16384 and cond_A <= 2^126 *)
+Theorem C08_history_overestimates_f32_partial :
+  forall (K : nat) (m : list (list F32.t)) (d : @dmat F32.t) (pads : nat -> list Z) (s : list nat) (a : arm) (i : nat)
+         (ops : list hop) (buf0 buf : sscores Z),
+    (0 < K)%nat -> (K <= 16)%nat ->
+    Forall (fun row => length row = K) m ->
+    Forall (fun row => Forall (fun x => F32.is_finite x = true) (nonwild K row)) m ->
+    to_discrete f32_ops K m = Ok d ->
+    (forall i, 16 <= K + length (pads i))%nat ->
+    Forall (fun v => (v < K)%nat) s ->
+    (1 <= length m)%nat -> (i + length m <= length s)%nat ->
+    well_conditioned m (d_factor d) = true ->
+    (Z.of_nat (length m) <= 16384)%Z ->
+    F32.le (cond_A m) (F32.of_Z_exp 1 126) = true ->
+    buf_wf 32 buf0 -> Forall (op_ok 32) ops -> hrun gen_avx2_u8 gen_neon_u8 32 ops buf0 = Ok buf ->
+    let st := striped K 32 (configure_wrap_of (length m)) s in
+    exists sc b real,
+      hstep gen_avx2_u8 gen_neon_u8 32 (HScoreInto (mkHCall (gen_dispatch_u8_x86 (arm4_of a)) (d_data d) pads st)) buf = Ok sc /\
+      sc_index sc i = Ok b /\
+      real_score f32_ops m st i = Ok real /\
+      (scale f32_ops d real <= b)%Z.
+Proof. exact history_overestimates_f32. Qed.
 
 (* (3) binary32: the statement is false for ill-conditioned matrices *)
 Theorem C08_ieee_refuted :
@@ -684,3 +709,36 @@ Qed.
 Example ex_negzero_repaired :
   f32_transfer_outcome negz_matrix [0%nat] 0%nat (F32.of_bits 3212836864) = Ok (0, 0, 0, true, true, true)%Z.
 Proof. exact negz_outcome. Qed.
+
+(* the hypotheses of C08_generic_backend_overestimates are satisfiable beyond Dna / 32 columns: a Protein-like
+   alphabet (K = 21, wildcard last) on a 16-column layout; the consensus word of the two rows saturates *)
+Definition ex_row21 (best : nat) : list xq :=
+  map (fun j => if (j =? best)%nat then XFin 3 else XFin (-2 # 1)) (seq 0 20) ++ [XNInf].
+Definition ex_m21 : list (list xq) := [ex_row21 4; ex_row21 17].
+
+Example ex_generic_any_K_C :
+  Forall (fun row => length row = 21%nat) ex_m21 /\
+  Forall (fun row => Forall xq_finite (nonwild 21%nat row)) ex_m21 /\
+  match to_discrete xq_ops 21%nat ex_m21 with
+  | Ok d =>
+      let st := striped 21 16 (configure_wrap_of 2) [4; 17; 0; 4; 17]%nat in
+      match generic_score_u8 16 (d_data d) st with
+      | Ok sc => sc_index sc 0 = Ok 255%Z /\ sc_index sc 3 = Ok 255%Z /\ sc_index sc 1 = Ok 0%Z
+      | _ => False
+      end
+  | _ => False
+  end.
+Proof.
+  split; [repeat constructor|]. split.
+  - repeat constructor.
+  - vm_compute. repeat split; reflexivity.
+Qed.
+
+(* a history whose operations satisfy the hypotheses of C08_scores_history *)
+Example ex_history_hypotheses :
+  buf_wf 32 buf_empty /\ Forall (op_ok 32) ex_h_ops /\ call_ok 32 ex_h_call.
+Proof.
+  split; [apply buf_empty_wf|]. split.
+  - repeat constructor; vm_compute; repeat constructor.
+  - vm_compute. repeat constructor.
+Qed.
